@@ -79,6 +79,10 @@ func (l *DefaultListener) updateLimit(endTime int64, current measurements.Immuta
 		l.limiter.mu.Lock()
 		defer l.limiter.mu.Unlock()
 		if endTime > l.limiter.nextUpdateTime {
+			// judge and hand over the window as it is now, under the lock that resets it: the snapshot taken when this
+			// completion was folded may lack completions folded since (they would be lost with the reset) or may
+			// already have been handed over by another completion (it would be seen twice)
+			current = *l.limiter.sample
 			if l.limiter.isWindowReady(current) {
 				l.limiter.sample = measurements.NewImmutableSampleWindow(
 					-1,
